@@ -34,12 +34,17 @@ func cmdVerify(args []string) {
 		}
 	}
 	for _, key := range fs.Args() {
-		fn := p.Func(key)
-		if fn == nil {
-			fmt.Println("no such function", key)
-			continue
+		var res *UnitResult
+		if strings.HasPrefix(key, "lemma:") {
+			res = encodeLemma(p, db, strings.TrimPrefix(key, "lemma:"))
+		} else {
+			fn := p.Func(key)
+			if fn == nil {
+				fmt.Println("no such function", key)
+				continue
+			}
+			res = encodeUnit(p, db, fn)
 		}
-		res := encodeUnit(p, db, fn)
 		if res.Rejected != "" {
 			fmt.Printf("%s: REJECTED: %s\n", key, res.Rejected)
 			continue
